@@ -14,13 +14,35 @@ from torch.nn.utils import parameters_to_vector  # noqa: E402
 FILES = ["qucumber/nn_states/neural_state.py", "qucumber/nn_states/complex_wavefunction.py", "qucumber/nn_states/density_matrix.py",
          "qucumber/nn_states/positive_wavefunction.py", "qucumber/rbm/binary_rbm.py", "qucumber/rbm/purification_rbm.py",
          "qucumber/utils/unitaries.py", "qucumber/utils/cplx.py"]
-REQUIRED_THEOREMS = ['C03_energy_grad', 'C03_energy_grad_prbm', 'C03_logZ_grad', 'C03_exact_gradient_positive', 'C03_sample_gradient_complex', 'C03_exact_gradient_complex', 'C03_sample_gradient_density', 'C03_exact_gradient_density', 'C03_batch_is_sum_complex', 'C03_batch_is_sum_density']
-RULE = ("case = (state kind, n, h[, a], parameters = scale*N(0,1) with all biases non-zero, dataset of random basis states with repeats, "
-        "per-sample basis strings over {X,Y,Z} incl. all-Z rows and mixed rows in one batch); every public gradient method compared with the model "
-        "and with central finite differences of an independently written NLL; permutation/split invariance; 1-D call form; "
+REQUIRED_THEOREMS = ['C03_energy_grad', 'C03_energy_grad_prbm', 'C03_logZ_grad', 'C03_logZ_grad_prbm', 'C03_exact_gradient_positive',
+                     'C03_sample_gradient_complex', 'C03_exact_gradient_complex', 'C03_sample_gradient_density', 'C03_exact_gradient_density',
+                     'C03_exact_gradient_density_eps_pos', 'C03_batch_is_sum_positive', 'C03_batch_is_sum_complex', 'C03_batch_is_sum_density',
+                     'C03_perm_invariant_positive', 'C03_perm_invariant_complex', 'C03_perm_invariant_density',
+                     # audit round: the losses are the Born-rule NLL of the dense Kronecker rotation (C04) / of rho (C02)
+                     'C03_upsi_as_coded', 'C03_upsi_is_dense_amplitude', 'C03_loss_is_born_complex', 'C03_Zsum_is_norm',
+                     'C03_born_complex_normalised', 'C03_nll_is_born_complex', 'C03_urhou_is_rotated_prob', 'C03_urhou_as_coded',
+                     'C03_urhou_is_born', 'C03_loss_allZ_density', 'C03_loss_is_born_density', 'C03_urhou_nonneg',
+                     'C03_born_density_normalised', 'C03_nll_is_born_density',
+                     # layout, call forms, default branch of pi_grad
+                     'C03_layout', 'C03_layout_prbm', 'C03_exact_gradient_positive_flat', 'C03_exact_gradient_complex_flat',
+                     'C03_exact_gradient_density_flat', 'C03_single_sample', 'C03_single_sample_density', 'C03_bases_none',
+                     'C03_bases_none_density', 'C03_pi_grad_branches_agree', 'C03_pi_grad_branches_differ', 'C03_default_dictionary_ok']
+RULE = ("case = (state kind, n, h[, a], parameters = scale*N(0,1) with all biases non-zero (the phase network's auxiliary bias of the mixed state is "
+        "non-zero in about half of the cases, exactly zero in the others), scale in {0.3,0.7,1.2} plus saturated rows at scale 3 and 10, dataset of random "
+        "basis states with repeats, per-sample basis strings over {X,Y,Z} incl. all-Z rows and mixed rows in one batch); regime all-strings: one dataset "
+        "per rotating state kind whose rows carry EVERY string of {X,Y,Z}^n (n <= 3 quick, n <= 4 thorough); one n = 4 case per kind also in the quick tier; "
+        "every public gradient method compared with the model "
+        "and with central finite differences of an independently written NLL (Born rule through the dense Kronecker product); the model's rotated "
+        "amplitude / probability compared with the same dense formula; permutation/split invariance; 1-D call form with the basis as str, "
+        "list and char-array row; bases=None on the complex / mixed state; pi_grad on both branches of `expand`; "
         "non-trivial iff the dataset has >= 2 distinct bases with a non-Z letter (complex/mixed) or >= 2 distinct rows (positive); distinct by hash")
 EPS = 1e-8
-TH = {"pos": "C03_exact_gradient_positive", "cplx": "C03_exact_gradient_complex", "dm": "C03_energy_grad_prbm / C03_logZ_grad_prbm (density rotated part: correspondence + finite differences)"}
+TH = {"pos": "C03_exact_gradient_positive(_flat)", "cplx": "C03_exact_gradient_complex(_flat) / C03_nll_is_born_complex",
+      "dm": "C03_exact_gradient_density_eps_pos / C03_exact_gradient_density_flat / C03_nll_is_born_density"}
+TH_SUM = {"pos": "C03_batch_is_sum_positive / C03_perm_invariant_positive", "cplx": "C03_batch_is_sum_complex / C03_perm_invariant_complex",
+          "dm": "C03_batch_is_sum_density / C03_perm_invariant_density"}
+TH_LAYOUT = {"pos": "C03_layout", "cplx": "C03_layout", "dm": "C03_layout_prbm"}
+TH_ONE = {"pos": "C03_batch_is_sum_positive", "cplx": "C03_single_sample", "dm": "C03_single_sample_density"}
 
 
 # ------------------------------------------------------------------ independent numpy NLL
@@ -177,7 +199,7 @@ def one_case(ctx, case):
         ex = [t.numpy().copy() for t in st.compute_exact_gradients(S, space_t)]
         ex2 = [t.numpy().copy() for t in st.compute_exact_grads(S, space_t)]
         ctx.oracle("compute_exact_grads == compute_exact_gradients", bool(np.allclose(ex[0], ex2[0], rtol=1e-12, atol=1e-12)), case,
-                   sig="pos/alias", theorem="C03_public_methods_agree")
+                   sig="pos/alias", theorem="C03_exact_gradient_positive (the model has ONE definition, exactGradientsPos, for both public names)")
         f = lambda p: nll_pos(p, data, space)  # noqa: E731
         fd = [fd_grad(f, am, order)]
         params = [am]
@@ -200,14 +222,14 @@ def one_case(ctx, case):
     # layout: parameters_to_vector(parameters()) is the order [W,(U),b,c,(d)]
     for net, p in zip(nets, params):
         ctx.oracle("parameters() order == [W,(U),b,c,(d)]", bool(np.array_equal(parameters_to_vector(net.parameters()).numpy(), flat(p, order))),
-                   case, sig=f"{kind}/layout", theorem="C03_layout")
+                   case, sig=f"{kind}/layout", theorem=TH_LAYOUT[kind])
     # history: re-initialise, write the same parameters back, the layout and every gradient must be unchanged
     st.reinitialize_parameters()
     nets = [st.rbm_am] + ([st.rbm_ph] if kind != "pos" else [])
     for net, p in zip(nets, params):
         (qc.set_prbm if kind == "dm" else qc.set_rbm)(net, p)
         ctx.oracle("parameters() order after reinitialize_parameters()", bool(np.array_equal(parameters_to_vector(net.parameters()).numpy(), flat(p, order))),
-                   case, sig=f"{kind}/layout-after-reinit", theorem="C03_layout / C06_lands_on_parameter")
+                   case, sig=f"{kind}/layout-after-reinit", theorem=TH_LAYOUT[kind] + " / C06_lands_on_parameter")
         names = [nm for nm, _ in net.named_parameters()]
         want = ["weights", "visible_bias", "hidden_bias"] if kind != "dm" else ["weights_W", "weights_U", "visible_bias", "hidden_bias", "aux_bias"]
         ctx.oracle("named_parameters() order after reinitialize_parameters()", names == want, case, detail={"names": names},
@@ -235,15 +257,47 @@ def one_case(ctx, case):
     g1, g2 = grad_of(data[:cut]), (grad_of(data[cut:]) if len(data) > cut else [np.zeros_like(x) for x in g])
     ok = all(np.allclose(x, y, rtol=1e-9, atol=1e-9 * scale) for x, y in zip(g, gp)) and \
         all(np.allclose(x, y1 + y2, rtol=1e-9, atol=1e-9 * scale) for x, y1, y2 in zip(g, g1, g2))
-    ctx.oracle("gradient invariant under permutation / split", bool(ok), case, sig=f"{kind}/perm-split", theorem="C03_batch_is_sum")
-    s0, b0 = data[0]
-    v1 = torch.tensor(s0, dtype=torch.double)
-    one = [t.numpy() for t in (st.gradient(v1) if kind == "pos" else st.gradient(v1, b0))]
-    oneb = grad_of([data[0]])
-    ctx.oracle("1-D call form == batch of one", bool(all(np.allclose(np.asarray(x).ravel(), np.asarray(y).ravel(), rtol=1e-9, atol=1e-9 * scale) for x, y in zip(one, oneb))), case,
-               sig=f"{kind}/1d", theorem="C03_public_methods_agree")
+    ctx.oracle("gradient invariant under permutation / split", bool(ok), case, sig=f"{kind}/perm-split", theorem=TH_SUM[kind])
+    # 1-D single-sample call form, with the basis given as a Python str, a list of letters and a char-array row (the row of the
+    # bases array a caller iterating over a dataset has in hand); the sample is the LAST row with a rotated basis if there is one
+    rot_rows = [k for k, (_, b_) in enumerate(data) if any(ch != "Z" for ch in b_)]
+    for k0 in sorted({0, rot_rows[-1] if rot_rows else 0}):
+        s0, b0 = data[k0]
+        v1 = torch.tensor(s0, dtype=torch.double)
+        oneb = grad_of([data[k0]])
+        forms = [("str", b0)] if kind == "pos" else [("str", b0), ("list", list(b0)), ("chararray", np.array(list(b0)))]
+        for fname, bform in forms:
+            try:  # "every public method ... is callable": an exception here is a property-level failure of THIS call form
+                one = [t.numpy() if hasattr(t, "numpy") else np.asarray(t) for t in (st.gradient(v1) if kind == "pos" else st.gradient(v1, bform))]
+                ok1 = len(one) == len(oneb) and all(np.asarray(x).size == np.asarray(y).size and
+                                                    np.allclose(np.asarray(x).ravel(), np.asarray(y).ravel(), rtol=1e-9, atol=1e-9 * scale) for x, y in zip(one, oneb))
+                det = None
+            except Exception as e:  # noqa: BLE001
+                ok1, det = False, {"exception": type(e).__name__, "message": str(e)[:200]}
+            ctx.oracle(f"1-D call form (basis as {fname}) == batch of one", bool(ok1), {**case, "row": k0}, detail=det, sig=f"{kind}/1d-{fname}", theorem=TH_ONE[kind])
+    # bases=None on a complex / mixed state: the amplitude network's energy gradient and a ZERO TENSOR for the phase network,
+    # i.e. what an all-Z basis array gives (the all-Z fast path)
+    gn_impl = None
+    if kind != "pos":
+        try:
+            gn = st.gradient(S)
+            Bz = np.array([list("Z" * n) for _ in data])
+            gz = st.gradient(S, Bz)
+            okn = (len(gn) == 2 and all(isinstance(t, torch.Tensor) for t in gn) and gn[1].shape == gn[0].shape == gz[0].shape
+                   and bool(torch.all(gn[1] == 0)) and np.allclose(gn[0].numpy(), gz[0].numpy(), rtol=1e-12, atol=1e-12 * scale)
+                   and np.allclose(np.asarray(gz[1]), 0.0))
+            det = {"shapes": [list(getattr(t, "shape", [])) for t in gn]}
+            ppn = st.positive_phase_gradients(S)
+            okp = all(np.allclose(x.numpy(), y.numpy() / len(data), rtol=1e-12, atol=1e-12 * scale) for x, y in zip(ppn, gn))
+            gn_impl = [t.numpy().copy() for t in gn]
+        except Exception as e:  # noqa: BLE001
+            okn, okp, det = False, False, {"exception": type(e).__name__, "message": str(e)[:200]}
+        ctx.oracle("gradient(samples, bases=None) == gradient with all-Z bases: [energy gradient, zero tensor]", bool(okn), case,
+                   detail=det, sig=f"{kind}/bases-none", theorem="C03_bases_none" + ("_density" if kind == "dm" else ""))
+        ctx.oracle("positive_phase_gradients(samples) == gradient(samples) / N", bool(okp), case, detail=det,
+                   sig=f"{kind}/bases-none-posphase", theorem=TH_SUM[kind])
     ctx.oracle("positive_phase == gradient / N", bool(all(np.allclose(x, y / len(data), rtol=1e-12, atol=1e-12 * scale) for x, y in zip(pp, g))), case,
-               sig=f"{kind}/posphase", theorem="C03_batch_is_sum")
+               sig=f"{kind}/posphase", theorem=TH_SUM[kind])
     # ---------------- model
     if ctx.driver is None:
         return
@@ -265,6 +319,32 @@ def one_case(ctx, case):
             cmp_vec(ctx, f"gradient[{i}]", g[i], unbits(m["gradient"][i]), case, f"{kind}/gradient", TH[kind], scale)
             cmp_vec(ctx, f"positive_phase_gradients[{i}]", pp[i], unbits(m["positive_phase"][i]), case, f"{kind}/posphase", TH[kind], scale)
             cmp_vec(ctx, f"compute_exact_gradients[{i}]", ex[i], unbits(m["exact"][i]), case, f"{kind}/exact", TH[kind], scale)
+        # the model's rotated amplitude / probability of every sample against the Born rule written with the DENSE Kronecker product
+        # (numerical instance of C03_upsi_is_dense_amplitude / C03_urhou_is_born; independent of the library)
+        if len(data) <= 40:
+            if kind == "cplx":
+                psi_np = np.exp(-(E_rbm(am, space) + 1j * E_rbm(ph, space)) / 2)
+                want = np.array([(dense_K(b_, D) @ psi_np)[idx(s_)] for s_, b_ in data])
+                got = np.array([complex(*unbits(u)) for u in m["upsi"]])
+                sc_b = float(np.max(np.abs(psi_np)))
+                ctx.point("model Upsi == (dense K psi)[sigma]", "aux", np.r_[got.real, got.imag], np.r_[want.real, want.imag], case, scale=sc_b,
+                          rtol=1e-9, atol=1e-12, theorem="C03_upsi_is_dense_amplitude")
+            else:
+                rho_ = rho_np(am, ph, space)
+                want = np.array([np.real(np.diag(dense_K(b_, D) @ rho_ @ dense_K(b_, D).conj().T))[idx(s_)] for s_, b_ in data])
+                got = unbits(m["urhou"])
+                ctx.point("model UrhoU == Re (dense K rho K^H)[sigma,sigma]", "aux", got, want, case, scale=float(np.max(np.abs(rho_))),
+                          rtol=1e-9, atol=1e-12, theorem="C03_urhou_is_born")
+        # bases=None against the model evaluated on all-Z samples (fast path)
+        samples_z = [{"bits": s_, "basis": "Z" * n} for s_, _ in data]
+        if kind == "cplx":
+            mz = ctx.driver.call("c03.cplx", n=n, h=h, am=qc.pbits(am), ph=qc.pbits(ph), dict=dict_enc, samples=samples_z)
+        else:
+            mz = ctx.driver.call("c03.dm", n=n, h=h, a=a, am=qc.pbits(am), ph=qc.pbits(ph), dict=dict_enc, eps=f2b(EPS), samples=samples_z)
+        for i in (0, 1):
+            if gn_impl is not None and len(gn_impl) == 2:
+                cmp_vec(ctx, f"gradient(bases=None)[{i}]", gn_impl[i], unbits(mz["gradient"][i]), case, f"{kind}/bases-none-model",
+                        "C03_bases_none" + ("_density" if kind == "dm" else ""), scale)
         if kind == "dm":
             # auxiliary internals on one pair
             v, vp = space[ctx.rng.randrange(len(space))], space[ctx.rng.randrange(len(space))]
@@ -278,6 +358,15 @@ def one_case(ctx, case):
             ctx.point("pi_grad(am)", "aux", np.r_[pg[0].ravel(), pg[1].ravel()], np.r_[unbits(mm["pi_grad_am"][0]), unbits(mm["pi_grad_am"][1])], case, scale=scale)
             pg = st.pi_grad(vt.unsqueeze(0), vpt.unsqueeze(0), phase=True, expand=True).numpy()
             ctx.point("pi_grad(ph)", "aux", np.r_[pg[0].ravel(), pg[1].ravel()], np.r_[unbits(mm["pi_grad_ph"][0]), unbits(mm["pi_grad_ph"][1])], case, scale=scale)
+            # the DEFAULT branch expand=False (never used by training; it adds the phase network's auxiliary bias, see notes/C03.md):
+            # 1-D operands, a batch of one, and the default value of the keyword
+            for flag, key in ((False, "pi_grad_am_noexpand"), (True, "pi_grad_ph_noexpand")):
+                want = np.r_[unbits(mm[key][0]), unbits(mm[key][1])]
+                pg = st.pi_grad(vt, vpt, phase=flag, expand=False).numpy()
+                ctx.point(f"pi_grad(phase={flag}, expand=False) 1-D", "aux", np.r_[pg[0].ravel(), pg[1].ravel()], want, case, scale=scale)
+                pg = st.pi_grad(vt.unsqueeze(0), vpt.unsqueeze(0), phase=flag).numpy()
+                ctx.point(f"pi_grad(phase={flag}) default expand, batch of one", "aux", np.r_[pg[0].ravel(), pg[1].ravel()], want, case, scale=scale)
+            ctx.count("pi_grad/expand=False:d_mu" + ("=0" if all(x == 0 for x in ph["d"]) else "!=0"))
 
 
 def fit_pairing_probe(ctx, rng, kind):
@@ -296,7 +385,7 @@ def fit_pairing_probe(ctx, rng, kind):
     if kind == "cplx":
         st = qc.make_complex(n, 2, qc.rand_rbm_params(rng, n, 2, 0.3), qc.rand_rbm_params(rng, n, 2, 0.3))
     else:
-        st = qc.make_density(n, 2, 2, qc.rand_prbm_params(rng, n, 2, 2, 0.3), qc.rand_prbm_params(rng, n, 2, 2, 0.3, d_zero=True))
+        st = qc.make_density(n, 2, 2, qc.rand_prbm_params(rng, n, 2, 2, 0.3), qc.rand_prbm_params(rng, n, 2, 2, 0.3, d_zero=rng.random() < 0.5))
     seen = []
     orig = st.compute_batch_gradients
 
@@ -341,7 +430,7 @@ def history_probe(ctx, case):
             m = ctx.driver.call("c03.cplx", n=n, h=h, am=qc.pbits(am2), ph=qc.pbits(ph2), dict=dict_enc, samples=samples)
         else:
             st = qc.make_density(n, h, a, case["am"], case["ph"]); first = st.compute_exact_gradients(S, space_t, B)
-            am2 = qc.rand_prbm_params(rng, n, h, a, 0.8); ph2 = qc.rand_prbm_params(rng, n, h, a, 0.8, d_zero=True)
+            am2 = qc.rand_prbm_params(rng, n, h, a, 0.8); ph2 = qc.rand_prbm_params(rng, n, h, a, 0.8, d_zero=rng.random() < 0.5)
             qc.set_prbm(st.rbm_am, am2, inplace=True); qc.set_prbm(st.rbm_ph, ph2, inplace=True)
             m = ctx.driver.call("c03.dm", n=n, h=h, a=a, am=qc.pbits(am2), ph=qc.pbits(ph2), dict=dict_enc, eps=f2b(EPS), samples=samples)
         ex = [t.numpy().copy() for t in st.compute_exact_gradients(S, space_t, B)]
@@ -366,22 +455,52 @@ def gen_cases(ctx, thorough):
                 N = rng.randint(3, 7 if n < 3 else 5)
                 if kind == "dm":
                     am = qc.rand_prbm_params(rng, n, h, a, scale)
-                    ph = qc.rand_prbm_params(rng, n, h, a, scale, d_zero=True)
+                    ph = qc.rand_prbm_params(rng, n, h, a, scale, d_zero=rng.random() < 0.5)
                 else:
                     am = qc.rand_rbm_params(rng, n, h, scale)
                     ph = qc.rand_rbm_params(rng, n, h, scale) if kind == "cplx" else None
                 plan.append({"kind": kind, "n": n, "h": h, "a": a, "am": am, "ph": ph, "data": mk_data(rng, n, N, kind)})
+        # quick tier: one n = 4 case per kind (the quantifier's largest size)
+        if not thorough:
+            n, h, a = 4, rng.choice([1, 2, 3]), rng.choice([1, 2])
+            if kind == "dm":
+                am = qc.rand_prbm_params(rng, n, h, a, 0.7); ph = qc.rand_prbm_params(rng, n, h, a, 0.7, d_zero=rng.random() < 0.5)
+            else:
+                am = qc.rand_rbm_params(rng, n, h, 0.7); ph = qc.rand_rbm_params(rng, n, h, 0.7) if kind == "cplx" else None
+            plan.append({"kind": kind, "n": n, "h": h, "a": a, "am": am, "ph": ph, "data": mk_data(rng, n, 4, kind), "regime": "n=4"})
+        # saturated regime: scale 3 and 10 (|pre-activations| >> 1: prob_h_given_v at its clamp, softplus in its linear branch)
+        for scale in (3.0, 10.0):
+            for n in ((2, 3) if not thorough else (1, 2, 3, 3)):
+                h = rng.choice([1, 2, 3]); a = rng.choice([1, 2])
+                if kind == "dm":
+                    am = qc.rand_prbm_params(rng, n, h, a, scale); ph = qc.rand_prbm_params(rng, n, h, a, scale, d_zero=rng.random() < 0.5)
+                else:
+                    am = qc.rand_rbm_params(rng, n, h, scale); ph = qc.rand_rbm_params(rng, n, h, scale) if kind == "cplx" else None
+                plan.append({"kind": kind, "n": n, "h": h, "a": a, "am": am, "ph": ph, "data": mk_data(rng, n, rng.randint(3, 5), kind),
+                             "regime": f"scale={scale:g}"})
+        # all-strings regime: every basis string of {X,Y,Z}^n occurs in ONE dataset (random outcomes, random row order)
+        if kind != "pos":
+            for n in ((1, 2, 3, 4) if thorough else (1, 2, 3)):
+                h = rng.choice([1, 2, 3]); a = rng.choice([1, 2])
+                if kind == "dm":
+                    am = qc.rand_prbm_params(rng, n, h, a, 0.8); ph = qc.rand_prbm_params(rng, n, h, a, 0.8, d_zero=rng.random() < 0.5)
+                else:
+                    am = qc.rand_rbm_params(rng, n, h, 0.8); ph = qc.rand_rbm_params(rng, n, h, 0.8)
+                strings = ["".join(t) for t in itertools.product("XYZ", repeat=n)]
+                rng.shuffle(strings)
+                data = [([rng.randint(0, 1) for _ in range(n)], b_) for b_ in strings]
+                plan.append({"kind": kind, "n": n, "h": h, "a": a, "am": am, "ph": ph, "data": data, "regime": "all-strings"})
         # small-amplitude regime (|<s|U|psi>|^2 down to ~1e-12): strongly negative visible biases, outcomes with many 1s
         if kind != "pos":
             for _ in range(6 if thorough else 1):
                 n = rng.choice([2, 3]); h = rng.choice([1, 2]); a = rng.choice([1, 2])
                 if kind == "dm":
-                    am = qc.rand_prbm_params(rng, n, h, a, 0.4); ph = qc.rand_prbm_params(rng, n, h, a, 0.6, d_zero=True)
+                    am = qc.rand_prbm_params(rng, n, h, a, 0.4); ph = qc.rand_prbm_params(rng, n, h, a, 0.6, d_zero=rng.random() < 0.5)
                 else:
                     am = qc.rand_rbm_params(rng, n, h, 0.4); ph = qc.rand_rbm_params(rng, n, h, 0.6)
                 n = 3
                 if kind == "dm":
-                    am = qc.rand_prbm_params(rng, n, h, a, 0.4); ph = qc.rand_prbm_params(rng, n, h, a, 0.6, d_zero=True)
+                    am = qc.rand_prbm_params(rng, n, h, a, 0.4); ph = qc.rand_prbm_params(rng, n, h, a, 0.6, d_zero=rng.random() < 0.5)
                 else:
                     am = qc.rand_rbm_params(rng, n, h, 0.4); ph = qc.rand_rbm_params(rng, n, h, 0.6)
                 am["b"] = [-rng.uniform(9.0, 14.0) for _ in range(n)]
@@ -400,7 +519,7 @@ def gen_cases(ctx, thorough):
             for _ in range(4 if thorough else 1):
                 n = rng.choice([2, 3]); h = rng.choice([1, 2, 3]); a = rng.choice([1, 2])
                 if kind == "dm":
-                    am = qc.rand_prbm_params(rng, n, h, a, 1e-3); ph = qc.rand_prbm_params(rng, n, h, a, 1e-3, d_zero=True)
+                    am = qc.rand_prbm_params(rng, n, h, a, 1e-3); ph = qc.rand_prbm_params(rng, n, h, a, 1e-3, d_zero=rng.random() < 0.5)
                     am["d"] = [rng.gauss(0.0, 1.0) for _ in range(a)]
                 else:
                     am = qc.rand_rbm_params(rng, n, h, 1e-3); ph = qc.rand_rbm_params(rng, n, h, 1e-3)
